@@ -28,6 +28,10 @@ AtomMatches(q, a) ==
     [] q.kind = "any"   -> Extended(q, a)
     [] q.kind = "metal" -> IsMetal(a.z) /\ Common(q, a)
 BondMatches(qb, tb) == In(tb[3], qb[3]) /\ (qb[4] = -1 \/ qb[4] = tb[4])
+\* ring membership of a target bond, determined from the recorded ring basis: both ends lie in one ring of it
+DerivedBondInRing(T, j) == IF \E q \in 1..Len(T.rings) : LET S == { T.rings[q][x] : x \in 1..Len(T.rings[q]) } IN T.bonds[j][1] \in S /\ T.bonds[j][2] \in S
+                           THEN 1 ELSE 0
+BondMatchesT(T, qb, j) == In(T.bonds[j][3], qb[3]) /\ (qb[4] = -1 \/ qb[4] = DerivedBondInRing(T, j))
 
 (* ---- attributes of a target atom, determined from the recorded bonds and ring basis (not from the library's labels) ----
    T.atoms[a] = [z, i, c, r, h];  T.bonds[j] = <<a, b, order, inring>>;  T.rings = reported ring basis (validated by C06) *)
@@ -60,7 +64,7 @@ Cand(P, T, at, pc, tc, scope, f, k) ==
                        THEN /\ tc[f[j]] = tc[t]
                             /\ LET pb == PBond(P, j, k) tb == TBond(T, f[j], t) IN
                                  IF pb = {} THEN tb = {}
-                                 ELSE tb # {} /\ BondMatches(P.bonds[CHOOSE x \in pb : TRUE], T.bonds[CHOOSE x \in tb : TRUE])
+                                 ELSE tb # {} /\ BondMatchesT(T, P.bonds[CHOOSE x \in pb : TRUE], CHOOSE x \in tb : TRUE)
                        ELSE tc[f[j]] # tc[t] }
 RECURSIVE Ext(_, _, _, _, _, _, _, _)
 Ext(P, T, at, pc, tc, scope, k, S) ==
